@@ -551,9 +551,18 @@ impl Substitute for syn::TypeTuple {
             .iter()
             .map(|elem| elem.substitute(substitutions))
             .multi_cartesian_product()
-            .map(|elems| Self {
-                elems: elems.into_iter().collect(),
-                ..self.clone()
+            .map(|elems| {
+                let mut elems = elems.into_iter().collect::<syn::punctuated::Punctuated<_, _>>();
+
+                // NOTE: `(T,)` is a tuple, `(T)` is not
+                if self.elems.trailing_punct() {
+                    elems.push_punct(Default::default());
+                }
+
+                Self {
+                    elems,
+                    ..self.clone()
+                }
             })
             .collect()
     }
